@@ -30,3 +30,27 @@ Print Assumptions C14_imul_alias_safe.
 Theorem C14_imul_unrepaired_refuted : exists x : seq Qc_fieldType, (imul true x x == mulS x x) = false.
 Proof. exact: imul_alias_refuted. Qed.
 Print Assumptions C14_imul_unrepaired_refuted.
+
+(* ---- the quotient kernel (`/`, `/=`) as a store transformer: with the temporary the implementation uses, the result is the quotient
+   of the operands as they were when the call started, whatever aliases the output; written straight into the output it is still
+   right when nothing or only the numerator aliases the output, WRONG when the denominator does (kernel-checked witness), and the
+   obvious probe x /= x does not reveal it (it returns the constant series 1 by cancellation) *)
+From AlgoV Require Import Series InPlace InPlaceDiv.
+Theorem C14_div_temp_alias_safe (K : fieldType) (al : alias) (x y out : seq K) :
+  div_temp al x y out = divS (x_seen al x out) (y_seen al y out).
+Proof. exact: div_temp_alias_safe. Qed.
+Theorem C14_div_direct_noalias (K : fieldType) (x y out : seq K) : size x = size out -> size y = size out -> div_direct NoAlias x y out = divS x y.
+Proof. exact: div_direct_noalias. Qed.
+Theorem C14_div_direct_aliasX (K : fieldType) (x y out : seq K) : size x = size out -> size y = size out -> div_direct AliasX x y out = divS out y.
+Proof. exact: div_direct_aliasX. Qed.
+Theorem C14_div_direct_aliasY_refuted :
+  exists (x out : seq Qc_fieldType), size x = size out /\ (div_direct AliasY x out out == divS x out) = false.
+Proof. exact: div_direct_aliasY_refuted. Qed.
+Theorem C14_div_direct_aliasXY_lucky (K : fieldType) (out : seq K) : out`_0 != 0 ->
+  div_direct AliasXY out out out = constS 1 (size out) /\ divS out out = constS 1 (size out).
+Proof. exact: div_direct_aliasXY_lucky. Qed.
+Print Assumptions C14_div_temp_alias_safe.
+Print Assumptions C14_div_direct_noalias.
+Print Assumptions C14_div_direct_aliasX.
+Print Assumptions C14_div_direct_aliasY_refuted.
+Print Assumptions C14_div_direct_aliasXY_lucky.
